@@ -279,7 +279,8 @@ Definition c07_kind (v : val) : kind :=
   let c := vint (vnth 0 v) in
   if c =? 0 then KBool else if c =? 1 then KIntOrNone else if c =? 2 then KIntDefault (vint (vnth 1 v))
   else if c =? 3 then KStrOrNone else if c =? 4 then KStr else if c =? 5 then KList
-  else if c =? 6 then KUrl else if c =? 7 then KErrors else if c =? 8 then KAst else if c =? 9 then KDrm else KUnknown.
+  else if c =? 6 then KUrl else if c =? 7 then KErrors else if c =? 8 then KAst else if c =? 9 then KDrm
+  else if c =? 10 then KFloatOrNone else KUnknown.
 Definition c07_value (v : val) : value :=
   let c := vint (vnth 0 v) in
   if c =? 0 then VBool (0 <? vint (vnth 1 v))
